@@ -531,6 +531,9 @@ func bin(op string, a, b *Term) *Term {
 		if isZero(b) {
 			return a
 		}
+		if op == "bvsub" && a == b {
+			return BVi(0, w)
+		}
 		if op != "bvsub" && isZero(a) {
 			return a
 		}
